@@ -74,13 +74,16 @@ func c12Vars(tier string) []c12Var {
 		{efivar.Db, true, (*efivarfs.Efivarfs).Getdb},
 		{efivar.PK, true, (*efivarfs.Efivarfs).GetPK},
 		{efivar.LoaderConfigTimeout, false, nil},
+		// a predefined variable whose mask has RUNTIME_ACCESS without BOOTSERVICE_ACCESS (the *Default
+		// variables): a store may refuse such a write; the register then keeps its value
+		{efivar.PKDefault, false, nil},
 		{efivar.KEK, true, (*efivarfs.Efivarfs).GetKEK},
 		{efivar.Dbx, true, (*efivarfs.Efivarfs).Getdbx},
 	}
 	if tier == "thorough" {
 		return all
 	}
-	return all[:3]
+	return all[:4]
 }
 
 func c12DBVals() []c12Val {
@@ -108,6 +111,9 @@ type c12Op struct {
 	signed bool
 	extra  attributes.Attributes // attribute bits the writer's definition has beyond the stock one
 	reuse  bool                  // one signed-update object (SignEFIVariable) written twice with WriteVar
+	// ownGUID: the caller names the variable with a definition of its own (same name, GUID value and
+	// attributes as the predefined one, but not the predefined value's GUID pointer)
+	ownGUID bool
 }
 
 func c12Ops(tier string) []c12Op {
@@ -123,6 +129,11 @@ func c12Ops(tier string) []c12Op {
 		if v.isDB {
 			for _, val := range vals {
 				ops = append(ops, c12Op{name: fmt.Sprintf("WriteSignedUpdate(%s,%s)", v.v.Name, val.name), vi: vi, val: val, signed: true})
+			}
+		}
+		if v.isDB && vi <= 1 {
+			for _, val := range []c12Val{vals[1], vals[3]} {
+				ops = append(ops, c12Op{name: fmt.Sprintf("WriteSignedUpdate(%s named by a definition the caller built itself,%s)", v.v.Name, val.name), vi: vi, val: val, signed: true, ownGUID: true})
 			}
 		}
 		if vi == 0 {
@@ -182,6 +193,10 @@ func (w *c12World) apply(vars []c12Var, op c12Op) error {
 	m := c12Marshallable(v, op.val)
 	def := v.v
 	def.Attributes |= op.extra
+	if op.ownGUID {
+		g := *def.GUID
+		def.GUID = &g
+	}
 	if op.reuse {
 		_, su, err := signature.SignEFIVariable(def, m, signerK1(), keys.C(1))
 		if err != nil {
@@ -228,7 +243,8 @@ func init() {
 			}
 			return u
 		},
-		Run: c12Run,
+		Run:        c12Run,
+		SearchUnit: func(unit string) bool { return true },
 		Bound: func(tier string) map[string]any {
 			return map[string]any{"operations": len(c12Ops(tier)), "depth": c12Depth(tier), "variables": len(c12Vars(tier))}
 		},
@@ -357,7 +373,8 @@ func c12Run(c *hx.Ctx, tier, unit string) {
 					c.Violation(fmt.Sprintf("C12 %s ends in %s", opClass(op), pn.String()), map[string]any{"history": histNames(path)})
 					continue
 				}
-				if err != nil {
+				refused := err != nil && vars[op.vi].v.Attributes&attributes.EFI_VARIABLE_BOOTSERVICE_ACCESS == 0
+				if err != nil && !refused {
 					c.Outcome("write-error")
 					c.Violation(fmt.Sprintf("C12 %s fails on the in-memory store", opClass(op)), map[string]any{"history": histNames(path), "error": err.Error()})
 					continue
@@ -370,7 +387,14 @@ func c12Run(c *hx.Ctx, tier, unit string) {
 				if val == nil {
 					val = []byte{}
 				}
-				model[op.vi] = val
+				if refused {
+					// a write with RUNTIME_ACCESS but without BOOTSERVICE_ACCESS may be refused (the
+					// specification does not allow that mask): a refused write is no write, the register
+					// keeps what it held
+					c.Outcome("write-refused(mask without BOOTSERVICE_ACCESS)")
+				} else {
+					model[op.vi] = val
+				}
 				nn := node{path, model}
 				if v, d := judge(w, nn); v != "" {
 					c.Outcome("read-violation")
